@@ -146,3 +146,15 @@ Theorem C16_truncate_clamped_refuted : exists lastEnd sz mmapSz maxSz pageSize e
   check_truncate_clamped lastEnd sz mmapSz maxSz pageSize = (e, true) /\ (e < lastEnd * pageSize)%Z.
 Proof. exact check_truncate_clamped_refuted. Qed.
 Print Assumptions C16_truncate_clamped_refuted.
+
+(* ... and how far a ROLLBACK may truncate it (tx.go rollbackChanges, fix D33): every page below the end of the state of
+   the other header page stays inside the file; the code before the fix cut the fall-back state off *)
+Theorem C16_rollback_keeps_the_other_headers_pages : forall metaEnd dataEnd otherEnd sz ps mp n,
+  0 < ps -> rollback_truncate metaEnd dataEnd otherEnd sz ps mp = Some n ->
+  forall id, 0 <= id < otherEnd -> (id + 1) * ps <= n.
+Proof. intros me de oe sz ps mp n Hps H. exact (proj2 (proj2 (proj2 (rollback_truncate_spec _ _ _ _ _ _ _ Hps H)))). Qed.
+Print Assumptions C16_rollback_keeps_the_other_headers_pages.
+Theorem C16_rollback_before_the_fix_refuted : exists metaEnd dataEnd otherEnd sz ps mp n id,
+  rollback_truncate_v1 metaEnd dataEnd sz ps mp = Some n /\ 0 <= id < otherEnd /\ n < (id + 1) * ps.
+Proof. exact rollback_truncate_v1_refuted. Qed.
+
